@@ -146,6 +146,8 @@ INVARIANTS = ['C17_CompletesOrRaises', 'C17_StoreIntact', 'C17_ReadsSafe', 'C17_
 
 def check_C17(report: common.Report):
     common.import_lib()
+    from .. import design  # pylint: disable=import-outside-toplevel
+    design.check(report, 'C17')
     thorough = report.tier == 'thorough'
     all_sc = scenarios.all_scenarios(thorough)
     traces = common.pmap(run_scenario, [(i, thorough) for i in range(len(all_sc))])
